@@ -859,7 +859,7 @@ class Models:
         def method(args, kwargs, n):
             if attr in ("lstrip", "rstrip", "strip"):
                 return StrV(None, f"{v.tag}.{attr}")
-            if attr == "split":
+            if attr in ("split", "rsplit"):
                 lv = ListV(None, tag="split", opaque_elem=None)
                 lv.split_of = (v, args)
                 if len(args) >= 2 and isinstance(args[1], Num) and args[1].rf.is_const():
